@@ -37,7 +37,8 @@ ASSUMPTIONS = [
 REQUIRED = ["op:overlap", "op:contains", "op:distance_ring", "op:distance_line", "op:connect_ring",
             "op:connect_line", "op:offset_ring", "op:offset_line", "op:extend_ring", "op:extend_line",
             "op:roundtrip_string", "op:bridges", "op:make_forwards", "op:remove_redundant",
-            "op:build_from_others", "op:lt", "class:build-from-compound-operands"]
+            "op:build_from_others", "op:lt", "class:build-from-compound-operands",
+            "class:connect-single-multi-part-location"]
 
 
 def _s(loc) -> str:
@@ -501,6 +502,15 @@ def _run_random_case(ctx, case):
     ok, res = _call(ctx, "connect-crash", case, L.connect_locations, locs, wrap)
     if ok:
         oracle_connect(ctx, locs, wrap, res, case, again=lambda ls: L.connect_locations(ls, wrap))
+    # the record's own helper is the entry point of the pipeline (also for a single location, whose hull fills its
+    # introns and faces forward)
+    rec = _SizedRecord(length, circular)
+    ok, res = _call(ctx, "connect-crash", case, rec.connect_locations, locs)
+    if ok:
+        ctx.count("op:connect_through_record")
+        if len(locs) == 1 and len(locs[0].parts) > 1:
+            ctx.count("class:connect-single-multi-part-location")
+        oracle_connect(ctx, locs, wrap, res, case, again=rec.connect_locations)
     for a, b in itertools.combinations(locs, 2):
         ok, res = _call(ctx, "overlap-crash", case, L.locations_overlap, a, b)
         if ok:
